@@ -3,7 +3,7 @@
    Print Assumptions.  Model: Perm/PmAttrs.v - generic in the field table (name, navigation name, config / state /
    navigation / no_user_view flag, "the getter returns another config object"); the tables of Host, Service, CheckCommand,
    EventCommand, TimePeriod and Endpoint are regenerated from the .ti files and compared with the live reflection data. *)
-From Icv Require Import Base.Tac Perm.PmModel Perm.PmProofs Perm.PmObs Perm.PmJoins Perm.PmAttrs Perm.PmAttrsProofs Perm.PmFacts Facts.Facts_c18.
+From Icv Require Import Base.Tac Perm.PmModel Perm.PmProofs Perm.PmObs Perm.PmJoins Perm.PmAttrs Perm.PmAttrsProofs Perm.PmFieldTables Perm.PmFacts Facts.Facts_c18.
 Local Open Scope Z_scope.
 
 (* SerializeObjectAttrs, for EVERY request shape (no attrs; attrs naming ordinary, navigation, no_user_view or unknown
